@@ -65,6 +65,44 @@ func genC08(rng *Rng, workdir string) *engSession {
 	busyUntil := make([]uint64, nTrav)
 	nAir := 6
 	days := rng.Range(25, 70)
+	// in a fifth of the histories the first traveller plans ten trips ahead at once, so that the book is
+	// full and the trip flown first is the one in its oldest slot
+	if rng.Chance(1, 5) {
+		p.Promises.MaxDays = 70
+		s.setParams(p)
+		s.update(day * 86400)
+		day++
+		now := day * 86400
+		s.update(now)
+		sd := day + 1
+		for k := 0; k < 10; k++ {
+			a := rng.Intn(nAir)
+			b := (a + 1 + rng.Intn(nAir-1)) % nAir
+			st := sd*86400 + uint64(rng.Intn(20000))
+			legs := []flap.VerifFlight{{Start: flap.EpochTime(st), End: flap.EpochTime(st + 5000), From: icaoOf(a), To: icaoOf(b), Distance: flap.Kilometres(17.77 + 40*rng.F01())}}
+			span := uint64(0)
+			if rng.Bool() {
+				span = uint64(rng.Range(1, 2))
+				st2 := (sd+span)*86400 + uint64(rng.Intn(20000))
+				legs = append(legs, flap.VerifFlight{Start: flap.EpochTime(st2), End: flap.EpochTime(st2 + 5000), From: icaoOf(b), To: icaoOf(a), Distance: flap.Kilometres(17.77 + 40*rng.F01())})
+			}
+			code, slot := s.propose(0, legs, 0, now+uint64(10*k))
+			s.stat[fmt.Sprintf("c08_ahead_propose_res_%d", code)]++
+			if code == 0 && s.make(0, slot, now+uint64(10*k+5), s.props[slot].VerifVersion()) == 0 {
+				plans[0] = append(plans[0], &c08Plan{legs: legs, ts: uint64(legs[0].Start), te: uint64(legs[len(legs)-1].End)})
+				busyUntil[0] = sd + span
+				s.stat["c08_promises_made"]++
+				s.stat["c08_planned_ahead"]++
+			}
+			sd += span + uint64(rng.Range(2, 4))
+		}
+		if s.stat["c08_planned_ahead"] == 10 {
+			s.stat["c08_full_book_planned_ahead"]++
+		}
+		if days < 40 {
+			days = 40
+		}
+	}
 	for d := 0; d < days; d++ {
 		now := day * 86400
 		s.update(now)
@@ -299,6 +337,12 @@ func runC08(o *Out, rng *Rng, tier string, replay string) {
 		}
 		keepFails(o, s, "C08")
 		engNote(o, s)
+		o.CountN("histories_with_full_book_planned_ahead", s.stat["c08_full_book_planned_ahead"])
+		for k, v := range s.stat {
+			if len(k) > 22 && k[:22] == "c08_ahead_propose_res_" {
+				o.CountN(k, v)
+			}
+		}
 		o.AddCase(List(s.coq), (s.stat["c08_kept_3_or_more_legs"] > 0 && s.stat["c08_kept_promise_used"] > 0) || s.stat["c08_kept_entry_left_the_book"] > 0, s.ops)
 		s.close()
 	}
